@@ -518,25 +518,72 @@ func engineSocket(f *rep.Flags, res *rep.Result) {
 	defer os.RemoveAll(base)
 	nop := func(context.Context, adaptation.SyncCB) error { return nil }
 	upd := func(context.Context, []*api.ContainerUpdate) ([]*api.ContainerUpdate, error) { return nil, nil }
-	// disabled external connections: nothing is served
+	_, derr := os.Stat(api.DefaultSocketPath)
+	preexistingDefault := derr == nil
+	// disabled external connections: nothing is served, whatever the order (and repetition) of the
+	// options that accompany the disabling one
 	{
-		sock := filepath.Join(base, "disabled", "nri.sock")
-		r, err := adaptation.New("rt", "1", nop, upd, adaptation.WithSocketPath(sock), adaptation.WithDisabledExternalConnections(), adaptation.WithPluginPath(filepath.Join(base, "none")))
-		if err != nil {
-			rep.Fatal(f, "%v", err)
+		type opt struct {
+			name string
+			mk   func(sock string) adaptation.Option
 		}
-		if err := r.Start(); err != nil {
-			fail("disabled-start", "Start with disabled connections failed: %v", err)
+		pool := []opt{
+			{"disabled", func(string) adaptation.Option { return adaptation.WithDisabledExternalConnections() }},
+			{"socket", func(s string) adaptation.Option { return adaptation.WithSocketPath(s) }},
+			{"plugin-path", func(string) adaptation.Option { return adaptation.WithPluginPath(filepath.Join(base, "none")) }},
+			{"config-path", func(string) adaptation.Option { return adaptation.WithPluginConfigPath(filepath.Join(base, "noconf")) }},
 		}
-		res.Evaluations++
-		if _, err := os.Stat(sock); err == nil {
-			fail("disabled-serves", "a socket exists although external connections are disabled")
+		var seqs [][]int
+		var rec func(cur []int)
+		rec = func(cur []int) {
+			has := false
+			for _, k := range cur {
+				has = has || k == 0
+			}
+			if has {
+				seqs = append(seqs, append([]int(nil), cur...))
+			}
+			if len(cur) == 4 {
+				return
+			}
+			for k := range pool {
+				rec(append(cur, k))
+			}
 		}
-		if c, err := net.DialTimeout("unix", sock, time.Second); err == nil {
-			c.Close()
-			fail("disabled-serves", "a plugin could connect although external connections are disabled")
+		rec(nil)
+		for i, seq := range seqs {
+			sock := filepath.Join(base, fmt.Sprintf("disabled%d", i), "nri.sock")
+			var opts []adaptation.Option
+			var names []string
+			for _, k := range seq {
+				opts = append(opts, pool[k].mk(sock))
+				names = append(names, pool[k].name)
+			}
+			what := strings.Join(names, ",")
+			r, err := adaptation.New("rt", "1", nop, upd, opts...)
+			if err != nil {
+				rep.Fatal(f, "%v", err)
+			}
+			if err := r.Start(); err != nil {
+				fail("disabled-start", "options [%s]: Start with disabled connections failed: %v", what, err)
+			}
+			res.Evaluations++
+			check := []string{sock}
+			if !preexistingDefault {
+				check = append(check, api.DefaultSocketPath) // the path NRI serves when no socket option is given
+			}
+			for _, s := range check {
+				if _, err := os.Stat(s); err == nil {
+					fail("disabled-serves", "options [%s]: a socket %s exists although external connections are disabled", what, s)
+				}
+				if c, err := net.DialTimeout("unix", s, time.Second); err == nil {
+					c.Close()
+					fail("disabled-serves", "options [%s]: a plugin could connect to %s although external connections are disabled", what, s)
+				}
+			}
+			r.Stop()
 		}
-		r.Stop()
+		res.Bounds["option_sequences_with_disabled_connections"] = len(seqs)
 	}
 	n := 0
 	for _, um := range []int{0o000, 0o002, 0o022, 0o027, 0o077} {
